@@ -299,49 +299,54 @@ def g4(prog, ctx, chain):
                 continue
             start = cfg.block_of(c)
             swallow = TOLERATED_SWALLOW.get((w.name, callee))
-            cut = set()
-            unknown_tests = []
-            for (b, i, s) in cfg.edges():
-                lit = cfg.edge_lit(b, i)
-                if lit is None:
-                    continue
-                if _success_edge(lit, v):
-                    cut.add((b, i))
-                elif swallow and lit.kind == "eq" and lit.pol and set((render(lit.lhs), render(lit.rhs))) == {v, swallow[0]}:
-                    cut.add((b, i))
-            region = cfg.reachable(start, avoid_edges=cut)
-            # within the failure region: no further read, v not overwritten, every return returns v
+            pos = cfg.index_of(up) or cfg.index_of(c)      # resume behind the statement that binds the result
+            if pos[0] != start:
+                pos = cfg.index_of(c)
+            FAILV = "<failure of %s>" % callee
+            swallow_val = prog.enumerators.get(swallow[0]) if swallow else None
             problems = []
-            pos = cfg.index_of(c)
-            for b in region:
-                for k, n in enumerate(cfg.blocks[b].elems):
-                    if b == start and k <= pos[1]:
+
+            def cut_edge(lit, b, i, v=v):
+                # tolerated: the one code that may continue (file absent in this layer)
+                if swallow and lit is not None and lit.kind == "eq" and lit.pol:
+                    for x, y in ((lit.lhs, lit.rhs), (lit.rhs, lit.lhs)):
+                        if y.const_value() == swallow_val and y.const_value() is not None and x.strip().k == "DeclRefExpr":
+                            return True
+                return False
+
+            def visit(b, fd, c=c, v=v, start=start, pos=pos):
+                elems = cfg.blocks[b].elems
+                for k, n in enumerate(elems):
+                    if b == start and k <= pos[1] and not visit.left_start:
                         continue
                     if n.k == "CallExpr" and n.j.get("callee") in forbidden and n is not c:
                         problems.append(("call", n))
-                    if n.k == "BinaryOperator" and n.j.get("op") == "=" and render(n.children[0]) == v and n.children[1].strip() is not c:
-                        problems.append(("overwrite", n))
                     if n.k == "ReturnStmt" and not n.j.get("inlined_return"):
-                        if not n.children or render(n.children[0]) != v:
-                            problems.append(("return", n))
-            # loops: the call block itself may be re-entered from the region through an uncut back edge
-            reenter = [(bb, ii) for (bb, ii, s) in cfg.edges() if s == start and bb in region and (bb, ii) not in cut and bb != start]
-            reenter = [e for e in reenter if cfg.dominates(start, e[0])]
-            if reenter:
-                problems.append(("loop", cfg.blocks[reenter[0][0]].elems[-1] if cfg.blocks[reenter[0][0]].elems else c))
+                        val = fd.get("=" + render(n.children[0])) if n.children else None
+                        if val != FAILV:
+                            over = n.children and n.children[0].strip().k == "DeclRefExpr" and query.returned_constant(n) is None
+                            problems.append(("overwrite" if over else "return", n))
+                visit.left_start = True
+                if b == start and visit.count > 0:
+                    problems.append(("loop", elems[-1] if elems else c))
+                visit.count += 1 if b == start else 0
+                return False
+            visit.left_start = False
+            visit.count = 0
+            cfg.feasible_reach(None, cut_edge, lambda a: True, start=start, accept=visit, init_facts={v: True, "=" + v: FAILV}, start_index=pos[1] + 1)
+            # the re-entry of the call block means the loop goes on after a failure
             if not problems:
-                why = "on every path with %s != 0 the function reaches `return %s` with no further file read" % (v, v)
+                why = "on every consistent path with %s != 0 the function returns that value (possibly through copies) with no further file read" % v
                 if swallow:
                     why += "; tolerated: %s (%s)" % (swallow[0], swallow[1])
                 ctx.ok("G4", inst, c.where, why)
             else:
                 kind, n = problems[0]
                 msg = {"call": "after %s failed, %s still calls %s" % (callee, w.name, n.j.get("callee")),
-                       "overwrite": "the error in `%s` is overwritten (%s) before it is returned" % (v, render(n)),
-                       "return": "a failure of %s can end in `%s` instead of `return %s`" % (callee, render(n), v),
+                       "overwrite": "the error in `%s` is overwritten or dropped before `%s`" % (v, render(n)),
+                       "return": "a failure of %s can end in `%s` instead of a return of its code" % (callee, render(n)),
                        "loop": "after %s failed the loop goes on to the next file (failure swallowed)" % callee}[kind]
-                ctx.fail("G4", inst, n.where, msg, key=key,
-                         path=cfg.describe_path(cfg.witness_path(cfg.block_of(n), avoid_edges=cut, start=start)))
+                ctx.fail("G4", inst, n.where, msg, key=key)
     ctx.floor("C06.G4 propagation sites", sites, 7)
 
 
